@@ -132,7 +132,7 @@ def build_harness():
     return rc, out
 
 
-def run_area(area, seed, n, tier, work, tag="", mask=None, classes=None):
+def run_area(area, seed, n, tier, work, tag="", mask=None, classes=None, oracle_prefixes=None):
     out = os.path.join(work, "run" + tag)
     os.makedirs(out, exist_ok=True)
     exe = os.path.join(HARNESS, "target", "debug", "pv-harness")
@@ -172,6 +172,14 @@ def run_area(area, seed, n, tier, work, tag="", mask=None, classes=None):
     disagreements = []
     for k, c in enumerate(cases):
         for j, (a, b) in enumerate(zip(c["impl"], c["model"])):
+            if mk(a) != mk(b) and oracle_prefixes and any(c["lines"][j].startswith(pp) for pp in oracle_prefixes):
+                # this line IS the property's oracle (the independent Lean reader / decoder applied to the
+                # implementation's real output): a mismatch is a failing input on the implementation
+                gen_lines = [l for l in c["lines"][: j + 1] if not any(l.startswith(pp) for pp in oracle_prefixes)]
+                fails.append(dict(case=k, corpus=False, **{"class": "roundtrip-mismatch"},
+                                  detail="independent reader applied to the implementation's output gives %s ; the input was %s" % (b[:1500], a[:1500]),
+                                  lines=gen_lines))
+                break
             if mk(a) != mk(b):
                 disagreements.append(dict(case=k, line=j, request=c["lines"][j], impl=a, model=b, lines=c["lines"][: j + 1]))
                 break
@@ -341,7 +349,7 @@ def main():
     else:
         for a in cfg["areas"]:
             n = a[tier]
-            r = run_area(a["area"], seed, n, tier, work, mask=a.get("mask"), classes=a.get("classes"))
+            r = run_area(a["area"], seed, n, tier, work, mask=a.get("mask"), classes=a.get("classes"), oracle_prefixes=a.get("oracle_prefixes"))
             if "error" in r:
                 violations.append(("correspondence", a["area"], [], [r["error"]], False))
                 continue
@@ -367,7 +375,7 @@ def main():
                 # broken correspondence / proof: search the implementation for a failing input
                 found = None
                 for extra in range(1, 4 if tier == "quick" else 8):
-                    rr = run_area(a["area"], seed * 1000 + extra, n * 2, tier, work, tag="-search", mask=a.get("mask"), classes=a.get("classes"))
+                    rr = run_area(a["area"], seed * 1000 + extra, n * 2, tier, work, tag="-search", mask=a.get("mask"), classes=a.get("classes"), oracle_prefixes=a.get("oracle_prefixes"))
                     if "error" in rr:
                         break
                     nf = [f for f in rr["fails"] if f["class"] not in known_classes]
